@@ -319,7 +319,7 @@ def aggregate_local_results(scenario, gcID):
         if scenario.components.batteries[batID].parent == gcID:
             if battery.capacity > 2 ** 63:
                 # unlimited capacity
-                max_cap = max(scenario.batteryLevels[batID])
+                max_cap = max(scenario.batteryLevels[batID], default=0)
                 print("Battery {} is unlimited, set capacity to {} kWh".format(
                     batID, max_cap))
                 total_bat_cap += max_cap
